@@ -455,6 +455,50 @@ inductive Case where
   | none
   | conn (c : ConnCase)
   | acc (c : AccCase)
+  | tlsconn
+
+/-! ### C19, TLS step: `tconn <lib r|o> <srv r|o> <good|bad> n=<names> <host> <payload>` -/
+
+def isIpD (s : String) : Bool := isV4 s || s == "::1"
+
+/-- names the connector hands on to the library.  rustls: `ServerName::try_from`; OpenSSL takes any
+name it can represent (1..255 bytes) — for the others the property demands an error, which is what the
+model answers (`invalid-input`) -/
+def validNameFor (lib : String) (h : String) : Bool :=
+  if lib == "r" then validDnsName h || isIpD h
+  else decide (1 ≤ h.utf8ByteSize ∧ h.utf8ByteSize ≤ 255)
+
+def runTconn (ws : List String) : String :=
+  match ws with
+  | [_, lib, srv, ca, names, host, payload] =>
+    if !((lib == "r" || lib == "o") && (srv == "r" || srv == "o") && (ca == "good" || ca == "bad")) then "bad-op" else
+    let c0 : ConnCase := { eps := [] }
+    let host? : Option Host :=
+      match stripPrefix "s=" host with
+      | some s => (c0.subst s).map hostOfString
+      | none =>
+        match stripPrefix "h=" host with
+        | some s =>
+          match rsplitOnce ',' s with
+          | some (h, p) =>
+            let p? : Option (Option Nat) := if p == "-" then some none else ((canonNat p).filter (· ≤ 65535)).map some
+            match c0.subst h, p? with
+            | some h, some p => some { hostname := h, port := p }
+            | _, _ => none
+          | none => none
+        | none => none
+    match host?, stripPrefix "n=" names, (canonNat payload).filter (· ≤ 65536) with
+    | some h, some names, some _ =>
+      let ns := (names.splitOn ";").filter (· ≠ "")
+      let verify (cert : List String × Bool) (name : String) : Bool := cert.2 && covers isIpD cert.1 name
+      match tlsConnect (validNameFor lib) verify h (ns, ca == "good") with
+      | .invalidInput => "err invalid-input io=0"
+      | .handshakeError _ => "err handshake"
+      | .established n =>
+        let sni := if isIpD n then "-" else if srv == "r" then lowerStr n else n
+        s!"ok sni={sni} echo=ok"
+    | _, _, _ => "bad-op"
+  | _ => "bad-op"
 
 structure State where
   case : Case := .none
@@ -470,6 +514,7 @@ def step (st : State) (line : String) : State × String :=
       match ks with
       | some ks => if ks.length ≤ 8 ∧ rest.length = 2 then ({ case := .conn { eps := ks } }, "ok") else ({ case := .none }, "bad-op")
       | none => ({ case := .none }, "bad-op")
+    | some "tlsconn" => if rest.length = 1 then ({ case := .tlsconn }, "ok") else ({ case := .none }, "bad-op")
     | some "acc" =>
       match parseAccHeader rest with
       | some c => ({ case := .acc c }, "ok")
@@ -481,6 +526,10 @@ def step (st : State) (line : String) : State × String :=
       match parseConnOp c ("conn" :: ws) with
       | some op => (st, runConn c op)
       | none => (st, "bad-op")
+    | _ => (st, "bad-op")
+  | "tconn" :: ws =>
+    match st.case with
+    | .tlsconn => (st, runTconn ("tconn" :: ws))
     | _ => (st, "bad-op")
   | ws =>
     match st.case with
